@@ -31,10 +31,12 @@ UNIT = {
         # (2) the block: size + alignment + member assertions, only with layout tests on
         {"kind": "fn", "file": CG, "name": "layout_assertions", "impl": CI, "ret": "r_unit",
          "closure": {"enclosing": "codegen", "anchor": "if ctx.options().layout_tests && !self.is_forward_declaration() {", "nth": 0, "stmt": True,
-                     "signature": "fn layout_assertions(self_: &CompInfo, ctx: &BindgenContext, layout: Option<Layout>, is_opaque: bool, canonical_ident: &Tok, result: &mut CodegenResult)",
+                     # every variable of the enclosing function that is in scope at the statement is a parameter (used or not), so that an edit
+                     # which starts to consult one of them is decided, not rejected by the front end
+                     "signature": "fn layout_assertions(self_: &CompInfo, ctx: &BindgenContext, layout: Option<Layout>, is_opaque: bool, packed: bool, is_union: bool, zero_sized: bool, forward_decl: bool, canonical_ident: &Tok, result: &mut CodegenResult)",
                      "prefix": "{", "suffix": "}"},
          "subst": [
-             ("ctx.options().layout_tests", "ctx.options().layout_tests()", 1, "R5 field read"),
+             ("ctx.options().layout_tests", "ctx.options().layout_tests()", 0, "R5 field read (if present)"),
              ('let fn_name = format!("bindgen_test_layout_{canonical_ident}"); Some(ctx.rust_ident_raw(fn_name))', "Some(ctx.rust_ident_raw(msg1(canonical_ident)))", 1, "R4"),
              ("quote! { ::#prefix::mem::size_of::<#canonical_ident>() }", "q_size_of_expr(&prefix, canonical_ident)", 1, "R4"),
              ("quote! { ::#prefix::mem::align_of::<#canonical_ident>() }", "q_align_of_expr(&prefix, canonical_ident)", 1, "R4"),
@@ -65,7 +67,7 @@ UNIT = {
          "r2_spec_form": [("item.is_enabled_for_codegen(ctx)", "item.s_enabled(ctx)")],
          "subst": [
              ("result: &mut CodegenResult<'_>", "result: &mut CodegenResult", 1, "R12 lifetime"),
-             ("ctx.options().layout_tests", "ctx.options().layout_tests()", 1, "R5 field read"),
+             ("ctx.options().layout_tests", "ctx.options().layout_tests()", 0, "R5 field read (if present)"),
              (('let mut fn_name = format!("__bindgen_test_layout_{name}_instantiation");', "Some(ctx.rust_ident_raw(fn_name))"), "Some(instantiation_test_name(ctx, result, &name))", 1, "R4"),
              ("quote! { ::#prefix::mem::size_of::<#ident>() }", "q_size_of_expr(&prefix, &ident)", 1, "R4"),
              ("quote! { ::#prefix::mem::align_of::<#ident>() }", "q_align_of_expr(&prefix, &ident)", 1, "R4"),
